@@ -19,7 +19,7 @@ LEVEL = "exploration"
 TECHNIQUE = "schedule control (controlled pool: all completion permutations for <= 3 tasks; real pools with injected delays and logged completion orders) + history checker on build digests"
 LEVEL_TEXT = ("Byte equality with the single-process matrix is demanded for: every completion permutation of the per-pair tasks under a "
               "controlled pool (1 and 2 WFS: 1 and 3 tasks per layer, exhaustive; 3 WFS: 6 tasks, 40-120 sampled permutations), real pools "
-              "with 2, 3, 4, 5, 8, 16 workers and delay plans (reverse, first-slowest, random) whose observed completion orders are logged, "
+              "with 2, 3, 4, 5, 8, 16 workers (11-14 sensors, 66-105 tasks per layer, under the controlled pool) and delay plans (reverse, first-slowest, random) whose observed completion orders are logged, "
               "and rebuild histories of length 5-12 on one object with the thread count toggled among {1, 2, 3, 4}, plus two objects "
               "interleaved. Exhaustive only inside the stated bounds; real schedules are sampled.")
 LEVEL_NOTE = "Trusted: the controlled pool covers the completion orders a real pool can produce for the task counts explored; fork start method."
@@ -140,6 +140,28 @@ def run(ctx, spec):
         for p in registry:
             p.terminate()
         slopecfg.kill_pools()
+    # ---------------- (ii b) many sensors: more than 10 WFS (two-digit indices, 66-105 tasks per layer) ----------------
+    if spec["shard"] % 4 == 0:
+        n_wfs = int([11, 12, 14, 11][(spec["shard"] // 4) % 4])
+        cfg = small_cfg(rng, n_wfs)
+        for m_i in range(n_wfs):                          # small masks keep the matrix small
+            cfg["pupil_masks"][m_i] = cfg["pupil_masks"][m_i][:2, :2].copy()
+            if cfg["pupil_masks"][m_i].sum() == 0:
+                cfg["pupil_masks"][m_i][0, 0] = 1
+            cfg["subap_diameters"][m_i] = cfg["telescope_diameter"] / cfg["pupil_masks"][m_i].shape[0]
+        cfg["n_layers"] = min(cfg["n_layers"], 2)
+        _, ref = build(aotools, sc, cfg, 1)
+        ntask = n_wfs * (n_wfs + 1) // 2
+        for perm in (list(range(ntask)), list(range(ntask))[::-1], [int(v) for v in rng.permutation(ntask)]):
+            log = []
+            factory = lambda n=None, _p=perm, _l=log: sched.ControlledPool(n, perm_of=lambda k, _pp=_p: _pp if k == len(_pp) else list(range(k))[::-1], log=_l)
+            wit = {"config": slopecfg.summary(cfg), "n_wfs": n_wfs, "tasks_per_layer": ntask, "pool": "controlled"}
+            ctx.case("many_sensors", key=(slopecfg.key(cfg), tuple(perm[:8])), nontrivial=True, sample={"n_wfs": n_wfs, "tasks_per_layer": ntask, "completion_order_head": perm[:8]})
+            _, M = build(aotools, sc, cfg, int(rng.choice([2, 3, 5])), factory)
+            ctx.count("many_sensor_builds")
+            ctx.check(M.shape == ref.shape and digest(M) == digest(ref), "differs_from_single_process:more_than_10_sensors",
+                      "%d sensors (%d tasks per layer): the multi-process matrix differs from the single-process build (max |diff| %.3g)"
+                      % (n_wfs, ntask, float(np.abs(M.astype(float) - ref.astype(float)).max()) if M.shape == ref.shape else -1), wit)
     # ---------------- (iii) rebuild histories with the thread count toggled ----------------
     for hi in range(spec["hist"]):
         cfg_a, cfg_b = small_cfg(rng, int(rng.choice([2, 3]))), small_cfg(rng, int(rng.choice([1, 2, 3])))
